@@ -47,6 +47,29 @@ pub fn h32(space: u64, id: u64) -> Byte32 {
     Byte32::from_slice(&b).expect("32 bytes")
 }
 
+/// bounded-exhaustive enumeration: the `index`-th sequence over `alphabet`, shortest first
+/// (index 0..k are the sequences of length 1, the next k^2 those of length 2, ...)
+pub fn nth_sequence<T: Clone>(alphabet: &[T], index: u64) -> Vec<T> {
+    let k = alphabet.len() as u64;
+    let mut rest = index;
+    let mut len = 1u32;
+    while rest >= k.pow(len) {
+        rest -= k.pow(len);
+        len += 1;
+    }
+    let mut out = Vec::with_capacity(len as usize);
+    for _ in 0..len {
+        out.push(alphabet[(rest % k) as usize].clone());
+        rest /= k;
+    }
+    out
+}
+
+/// number of sequences of length 1..=max_len over an alphabet of k symbols
+pub fn sequences_up_to(k: u64, max_len: u32) -> u64 {
+    (1..=max_len).map(|l| k.pow(l)).sum()
+}
+
 pub struct Ctx {
     pub res: RunResult,
     pub log: Fnv,
@@ -124,6 +147,10 @@ pub fn gen_scenario(kind: &str, seed: u64) -> Scenario {
         "headermap" => Scenario::Headermap(headermap::generate(seed)),
         "ancestor" => Scenario::Ancestor(ancestor::generate(seed)),
         "locator" => Scenario::Locator(locator::generate(seed)),
+        "orphan-enum" => Scenario::Orphan(orphan::generate_enum(seed)),
+        "inflight-enum" => Scenario::Inflight(inflight::generate_enum(seed)),
+        "headermap-enum" => Scenario::Headermap(headermap::generate_enum(seed)),
+        "ancestor-enum" => Scenario::Ancestor(ancestor::generate_enum(seed)),
         _ => panic!("unknown kind {kind} (orphan|inflight|headermap|ancestor|locator)"),
     }
 }
@@ -289,9 +316,23 @@ fn main() {
             0
         }
         "batch" => {
-            let (lo, hi) = parse_seed_range(&arg_value(&args, "--seeds").unwrap());
+            // `--enumerate L` with an X-enum kind: every sequence up to length L (ancestor: trunk length L)
+            let (lo, hi) = match arg_value(&args, "--enumerate") {
+                Some(l) => {
+                    let l: u64 = l.parse().unwrap();
+                    let total = match kind.as_str() {
+                        "orphan-enum" => sequences_up_to(orphan::alphabet().len() as u64, l as u32),
+                        "inflight-enum" => sequences_up_to(inflight::alphabet().len() as u64, l as u32),
+                        "headermap-enum" => sequences_up_to(headermap::alphabet().len() as u64, l as u32),
+                        "ancestor-enum" => ancestor::enum_total(l),
+                        _ => panic!("--enumerate needs --kind orphan-enum|inflight-enum|headermap-enum|ancestor-enum"),
+                    };
+                    (0, total)
+                }
+                None => parse_seed_range(&arg_value(&args, "--seeds").unwrap()),
+            };
             let threads: usize = arg_value(&args, "--threads").map(|s| s.parse().unwrap()).unwrap_or(16);
-            let mut batch = if kind == "inflight" {
+            let mut batch = if kind.starts_with("inflight") {
                 run_batch_in_workers(&kind, lo, hi, threads)
             } else {
                 run_batch(&kind, lo, hi, threads, &root)
